@@ -134,8 +134,30 @@ theorem locNoneB_sound {l : Loc} (h : locNoneB l = true) : l.noComments := by
   simp only [Bool.and_eq_true, beq_iff_eq, List.isEmpty_iff] at h
   exact ⟨h.1.1, h.1.2, h.2⟩
 
+/-- at most a leading comment -/
+def leadOnlyB (l : Loc) : Bool := l.detached.isEmpty && l.trailing == ""
+
+theorem leadOnlyB_sound {l : Loc} (h : leadOnlyB l = true) : l.leadOnly := by
+  simp only [leadOnlyB, Bool.and_eq_true, beq_iff_eq, List.isEmpty_iff] at h
+  exact ⟨h.1, h.2⟩
+
+/-- the leading comment is one the printer splits into lines and the reader joins again -/
+def commentOkB (c : String) : Bool :=
+  c == "" || (!(commentBody c).isEmpty && (commentBody c).all (fun x => x.toList.all (· != '\n')) &&
+    String.join ((commentBody c).map (· ++ "\n")) == c)
+
+theorem commentOkB_sound {c : String} (h : commentOkB c = true) : CommentOk c := by
+  simp only [commentOkB, Bool.or_eq_true, beq_iff_eq, Bool.and_eq_true, Bool.not_eq_true', List.all_eq_true,
+    bne_iff_ne, ne_eq] at h
+  rcases h with h | ⟨⟨h1, h2⟩, h3⟩
+  · exact Or.inl h
+  · refine Or.inr ⟨?_, ?_, h3⟩
+    · intro h0; rw [h0] at h1; simp at h1
+    · intro x hx ch hch he
+      exact h2 x hx ch hch he
+
 def simpleFieldB (f : FieldD) : Bool :=
-  (match f.kind with | .field => true | .value => false) && locNoneB f.loc && f.opts.isEmpty && labelOkB f.label &&
+  (match f.kind with | .field => true | .value => false) && leadOnlyB f.loc && f.opts.isEmpty && labelOkB f.label &&
   isIdentB f.name && (f.json == some (String.ofList (defaultJSONName f.name.toList))) &&
   (match tyParts f.type.toList with
    | some (abs, first, rest) =>
@@ -152,7 +174,7 @@ theorem simpleFieldB_sound {f : FieldD} (h : simpleFieldB f = true) : SimpleFiel
     simp only [Bool.and_eq_true, Bool.or_eq_true, List.all_eq_true, bne_iff_ne, ne_eq, Bool.not_eq_true',
       beq_eq_false_iff_ne] at hty
     obtain ⟨⟨⟨hf, hr⟩, hmap⟩, hkw⟩ := hty
-    refine ⟨hkind, locNoneB_sound hl, by simpa using ho, ?_, isIdentB_sound hn, by simpa using hj,
+    refine ⟨hkind, leadOnlyB_sound hl, by simpa using ho, ?_, isIdentB_sound hn, by simpa using hj,
       abs, first, rest, isIdentB_sound hf, fun r hr' => isIdentB_sound (hr r hr'),
       tyParts_sound f.type abs first rest hparts, ?_, ?_⟩
     · unfold labelOkB at hlab
@@ -187,7 +209,7 @@ def mapParts (cs : List Char) : Option (String × Bool × String × List String)
   | _ => none
 
 def mapFieldB (f : FieldD) : Bool :=
-  (match f.kind with | .field => true | .value => false) && locNoneB f.loc && f.opts.isEmpty && f.label == "" &&
+  (match f.kind with | .field => true | .value => false) && leadOnlyB f.loc && f.opts.isEmpty && f.label == "" &&
   isIdentB f.name && (f.json == some (String.ofList (defaultJSONName f.name.toList))) &&
   (match mapParts f.type.toList with
    | some (k, abs, first, rest) =>
@@ -203,7 +225,7 @@ theorem mapFieldB_sound {f : FieldD} (h : mapFieldB f = true) : MapField f := by
   · rename_i k abs first rest _
     simp only [Bool.and_eq_true, List.all_eq_true, beq_iff_eq] at hty
     obtain ⟨⟨⟨hki, hf⟩, hr⟩, heq⟩ := hty
-    exact ⟨hkind, locNoneB_sound hl, by simpa using ho, by simpa using hlab, isIdentB_sound hn, by simpa using hj,
+    exact ⟨hkind, leadOnlyB_sound hl, by simpa using ho, by simpa using hlab, isIdentB_sound hn, by simpa using hj,
       k, abs, first, rest, isIdentB_sound hki, isIdentB_sound hf, fun r hr' => isIdentB_sound (hr r hr'), heq⟩
   · simp at hty
 
@@ -362,7 +384,7 @@ theorem tyW_sound {label ty : String} {w : TyW} (h : tyW label ty = some w) : w.
     · simp at h
 
 def optFieldB (f : FieldD) : Bool :=
-  (match f.kind with | .field => true | .value => false) && locNoneB f.loc && f.opts.all (fun o => !o.hasLoc) &&
+  (match f.kind with | .field => true | .value => false) && leadOnlyB f.loc && f.opts.all (fun o => !o.hasLoc) &&
   labelOkB f.label && isIdentB f.name && !f.popts.isEmpty &&
   (fieldLines 0 f).all (fun l => l.toList.all (fun c => c != '\n') && tokOkB l) &&
   (match tyW f.label f.type with
@@ -379,7 +401,7 @@ theorem optFieldB_sound {f : FieldD} (h : optFieldB f = true) : OptField f := by
   simp only [Bool.and_eq_true] at h
   obtain ⟨⟨⟨⟨⟨⟨⟨⟨hk, hl⟩, hu⟩, hlab⟩, hn⟩, hne⟩, hnoch⟩, hread⟩, hok⟩ := h
   have hkind : f.kind = .field := by cases hk' : f.kind <;> simp_all
-  refine ⟨hkind, locNoneB_sound hl, ?_, ?_, isIdentB_sound hn, ?_, ?_, ?_, fieldOkB_sound hok⟩
+  refine ⟨hkind, leadOnlyB_sound hl, ?_, ?_, isIdentB_sound hn, ?_, ?_, ?_, fieldOkB_sound hok⟩
   · intro o ho
     simp only [List.all_eq_true, Bool.not_eq_true'] at hu
     exact hu o ho
@@ -405,7 +427,7 @@ theorem optFieldB_sound {f : FieldD} (h : optFieldB f = true) : OptField f := by
     · simp at hread
 
 def simpleValueB (f : FieldD) : Bool :=
-  (match f.kind with | .value => true | .field => false) && locNoneB f.loc && f.opts.isEmpty && f.label == "" &&
+  (match f.kind with | .value => true | .field => false) && leadOnlyB f.loc && f.opts.isEmpty && f.label == "" &&
   f.type == "" && isIdentB f.name && f.name != "option" && f.json.isNone
 
 theorem simpleValueB_sound {f : FieldD} (h : simpleValueB f = true) : SimpleValue f := by
@@ -413,18 +435,18 @@ theorem simpleValueB_sound {f : FieldD} (h : simpleValueB f = true) : SimpleValu
   simp only [Bool.and_eq_true, beq_iff_eq, bne_iff_ne, ne_eq] at h
   obtain ⟨⟨⟨⟨⟨⟨⟨hk, hl⟩, ho⟩, hlab⟩, hty⟩, hn⟩, hno⟩, hj⟩ := h
   have hkind : f.kind = .value := by cases hk' : f.kind <;> simp_all
-  exact ⟨hkind, locNoneB_sound hl, by simpa using ho, hlab, hty, isIdentB_sound hn, hno, by simpa using hj⟩
+  exact ⟨hkind, leadOnlyB_sound hl, by simpa using ho, hlab, hty, isIdentB_sound hn, hno, by simpa using hj⟩
 
 def simpleValuesB : List Item → Bool
   | [] => true
-  | .field f :: r => simpleValueB f && simpleValuesB r
+  | .field f :: r => simpleValueB f && commentOkB f.loc.leading && simpleValuesB r
   | _ :: _ => false
 
 theorem simpleValuesB_sound : ∀ es, simpleValuesB es = true → SimpleValues es
   | [], _ => trivial
   | .field f :: r, h => by
     simp only [simpleValuesB, Bool.and_eq_true] at h
-    exact ⟨simpleValueB_sound h.1, simpleValuesB_sound r h.2⟩
+    exact ⟨simpleValueB_sound h.1.1, commentOkB_sound h.1.2, simpleValuesB_sound r h.2⟩
   | .rpc _ _ _ _ _ _ :: _, h => by simp [simpleValuesB] at h
   | .block _ _ _ _ _ _ _ :: _, h => by simp [simpleValuesB] at h
 
@@ -473,15 +495,15 @@ theorem blockOptsB_sound {os : List SOpt} (h : blockOptsB os = true) : BlockOpts
 
 def simpleMembersB : List Item → Bool
   | [] => true
-  | .field f :: r => (simpleFieldB f || optFieldB f) && f.label == "" && simpleMembersB r
+  | .field f :: r => (simpleFieldB f || optFieldB f) && f.label == "" && commentOkB f.loc.leading && simpleMembersB r
   | _ :: _ => false
 
 theorem simpleMembersB_sound : ∀ es, simpleMembersB es = true → SimpleMembers es
   | [], _ => trivial
   | .field f :: r, h => by
     simp only [simpleMembersB, Bool.and_eq_true, Bool.or_eq_true, beq_iff_eq] at h
-    refine ⟨⟨?_, h.1.2⟩, simpleMembersB_sound r h.2⟩
-    rcases h.1.1 with h1 | h1
+    refine ⟨⟨?_, h.1.1.2⟩, commentOkB_sound h.1.2, simpleMembersB_sound r h.2⟩
+    rcases h.1.1.1 with h1 | h1
     · exact Or.inl (simpleFieldB_sound h1)
     · exact Or.inr (optFieldB_sound h1)
   | .rpc _ _ _ _ _ _ :: _, h => by simp [simpleMembersB] at h
@@ -492,12 +514,12 @@ def simpleItemB : Item → Bool
   | .field f => simpleFieldB f || mapFieldB f || optFieldB f
   | .rpc _ _ _ _ _ _ => false
   | .block kw t l _ name os ks =>
-    locNoneB l && blockOptsB os && isIdentB name &&
+    leadOnlyB l && blockOptsB os && isIdentB name &&
     ((kw == "message" && t == 1 && simpleKidsB ks) || (kw == "enum" && t == 2 && simpleValuesB ks) ||
       (kw == "oneof" && t == 0 && !ks.isEmpty && simpleMembersB ks && os.isEmpty))
 def simpleKidsB : List Item → Bool
   | [] => true
-  | e :: r => simpleItemB e && simpleKidsB r
+  | e :: r => simpleItemB e && commentOkB e.loc.leading && simpleKidsB r
 end
 
 mutual
@@ -514,7 +536,7 @@ theorem simpleItemB_sound : ∀ e, simpleItemB e = true → SimpleItem e
     simp only [simpleItemB, Bool.and_eq_true, Bool.or_eq_true, beq_iff_eq] at h
     obtain ⟨⟨⟨hl, ho⟩, hn⟩, hc⟩ := h
     simp only [SimpleItem]
-    refine ⟨locNoneB_sound hl, blockOptsB_sound ho, isIdentB_sound hn, ?_⟩
+    refine ⟨leadOnlyB_sound hl, blockOptsB_sound ho, isIdentB_sound hn, ?_⟩
     rcases hc with (⟨⟨h1, h2⟩, h3⟩ | ⟨⟨h1, h2⟩, h3⟩) | ⟨⟨⟨⟨h1, h2⟩, h4⟩, h3⟩, h5⟩
     · exact Or.inl ⟨h1, h2, simpleKidsB_sound ks h3⟩
     · exact Or.inr (Or.inl ⟨h1, h2, simpleValuesB_sound ks h3⟩)
@@ -523,7 +545,7 @@ theorem simpleKidsB_sound : ∀ es, simpleKidsB es = true → SimpleKids es
   | [], _ => trivial
   | e :: r, h => by
     simp only [simpleKidsB, Bool.and_eq_true] at h
-    exact ⟨simpleItemB_sound e h.1, simpleKidsB_sound r h.2⟩
+    exact ⟨simpleItemB_sound e h.1.1, commentOkB_sound h.1.2, simpleKidsB_sound r h.2⟩
 end
 
 def rpcTyBody (st : Bool) (body : List Char) : Bool :=
@@ -602,30 +624,30 @@ theorem rpcOptsB_sound {os : List SOpt} (h : rpcOptsB os = true) : RpcOpts os :=
     · exact h
 
 def simpleRpcB : Item → Bool
-  | .rpc l _ name inT outT os => locNoneB l && rpcOptsB os && isIdentB name && rpcTyB inT && rpcTyB outT
+  | .rpc l _ name inT outT os => leadOnlyB l && rpcOptsB os && isIdentB name && rpcTyB inT && rpcTyB outT
   | _ => false
 
 theorem simpleRpcB_sound : ∀ e, simpleRpcB e = true → SimpleRpc e
   | .rpc l _ name inT outT os, h => by
     simp only [simpleRpcB, Bool.and_eq_true] at h
     obtain ⟨⟨⟨⟨hl, ho⟩, hn⟩, hi⟩, hou⟩ := h
-    exact ⟨locNoneB_sound hl, rpcOptsB_sound ho, isIdentB_sound hn, rpcTyB_sound hi, rpcTyB_sound hou⟩
+    exact ⟨leadOnlyB_sound hl, rpcOptsB_sound ho, isIdentB_sound hn, rpcTyB_sound hi, rpcTyB_sound hou⟩
   | .field _, h => by simp [simpleRpcB] at h
   | .block _ _ _ _ _ _ _, h => by simp [simpleRpcB] at h
 
 def simpleRpcsB : List Item → Bool
   | [] => true
-  | e :: r => simpleRpcB e && simpleRpcsB r
+  | e :: r => simpleRpcB e && commentOkB e.loc.leading && simpleRpcsB r
 
 theorem simpleRpcsB_sound : ∀ es, simpleRpcsB es = true → SimpleRpcs es
   | [], _ => trivial
   | e :: r, h => by
     simp only [simpleRpcsB, Bool.and_eq_true] at h
-    exact ⟨simpleRpcB_sound e h.1, simpleRpcsB_sound r h.2⟩
+    exact ⟨simpleRpcB_sound e h.1.1, commentOkB_sound h.1.2, simpleRpcsB_sound r h.2⟩
 
 def simpleTopB : Item → Bool
   | .block kw t l i name os ks =>
-    if kw == "service" then locNoneB l && blockOptsB os && isIdentB name && t == 0 && simpleRpcsB ks
+    if kw == "service" then leadOnlyB l && blockOptsB os && isIdentB name && t == 0 && simpleRpcsB ks
     else t != 0 && simpleItemB (.block kw t l i name os ks)
   | _ => false
 
@@ -636,7 +658,7 @@ theorem simpleTopB_sound : ∀ e, simpleTopB e = true → SimpleTop e
     · rename_i hkw
       simp only [Bool.and_eq_true, beq_iff_eq] at h hkw
       obtain ⟨⟨⟨⟨hl, ho⟩, hn⟩, ht⟩, hk⟩ := h
-      exact Or.inr ⟨locNoneB_sound hl, blockOptsB_sound ho, isIdentB_sound hn, hkw, ht, simpleRpcsB_sound ks hk⟩
+      exact Or.inr ⟨leadOnlyB_sound hl, blockOptsB_sound ho, isIdentB_sound hn, hkw, ht, simpleRpcsB_sound ks hk⟩
     · simp only [Bool.and_eq_true, bne_iff_ne, ne_eq] at h
       exact Or.inl ⟨simpleItemB_sound _ h.2, h.1⟩
   | .field _, h => by simp [simpleTopB] at h
@@ -644,13 +666,13 @@ theorem simpleTopB_sound : ∀ e, simpleTopB e = true → SimpleTop e
 
 def simpleTopsB : List Item → Bool
   | [] => true
-  | e :: r => simpleTopB e && simpleTopsB r
+  | e :: r => simpleTopB e && commentOkB e.loc.leading && simpleTopsB r
 
 theorem simpleTopsB_sound : ∀ es, simpleTopsB es = true → SimpleTops es
   | [], _ => trivial
   | e :: r, h => by
     simp only [simpleTopsB, Bool.and_eq_true] at h
-    exact ⟨simpleTopB_sound e h.1, simpleTopsB_sound r h.2⟩
+    exact ⟨simpleTopB_sound e h.1.1, commentOkB_sound h.1.2, simpleTopsB_sound r h.2⟩
 
 def plainBodyB (cs : List Char) : Bool := cs.all fun c => c != '"' && c != '\\' && c != '\n'
 
@@ -706,8 +728,8 @@ theorem simpleFileB_sound (gen : String) (t : FileD) (h : simpleFileB gen t = tr
 /-! ## why a file is outside (informative, for the evidence) -/
 
 def locTags (l : Loc) : List String :=
-  (if !l.detached.isEmpty || l.leading != "" || l.trailing != "" then ["comments"] else []) ++
-  []
+  (if !l.detached.isEmpty || l.trailing != "" then ["comments"] else []) ++
+  (if !commentOkB l.leading then ["leading-comment-shape"] else [])
 
 def fieldTags (f : FieldD) : List String :=
   if optFieldB f then [] else
@@ -733,7 +755,7 @@ def whyNot (gen : String) (t : FileD) : List String :=
   if simpleFileB gen t then [] else
   let tags := locTags t.loc ++ (if t.opts.isEmpty then [] else ["options"]) ++ (if t.exts.isEmpty then [] else ["extend"]) ++
     itemsTags t.items
-  let known := ["comments", "extend", "json_name", "options"].filter (tags.contains ·)
+  let known := ["comments", "extend", "json_name", "leading-comment-shape", "options"].filter (tags.contains ·)
   if known.isEmpty then ["other"] else known
 
 end J5V.Print.Cover
